@@ -19,12 +19,10 @@ SKIP = {
 }
 
 
-# the every-change subset: the words with index / size / shift / offset arithmetic (where panics come from), one or two
-# per implementation family; the thorough tier runs every word of every loader
-QUICK_WORDS = ["nth", "slice", "get", "insert", "remove", "push", "reverse", "length", "concat", "join", "sort", "I", "J", "K", "unbox", "collect",
-               "/", "rem", "*", "bsl", "bsr", "abs", "neg", "round", ">int",
-               "bits", "bytes", "seek", "int", "uint", "u8", "i16le", "f32", "float", "open-bitstr", "close-bitstr", "emit", ">b", "find",
-               "bitstr-append", "hex>bitstr", "cstr", "base32", "base64>", "zero85"]
+# the every-change subset: words with index / size / shift / offset arithmetic that are decided within the quick path
+# budget of 1000 paths (the other candidates - nth slice get insert bits bytes int uint u8 float open-bitstr emit ... - need
+# more and are decided, or listed as not covered, by the thorough tier, which runs every word of every loader)
+QUICK_WORDS = ["push", "remove", "length", "I", "J", "K", "/", "rem", "*", "bsl", "bsr", "abs", "neg", "round", ">int", "seek", ">b", "i16le", "bitstr-append"]
 
 
 def cell_lines(m, names):
@@ -72,14 +70,51 @@ def arm_lemma(opcode):
     return body
 
 
+BASELINE_FILE = __import__("os").path.join(__import__("os").path.dirname(__file__), "c08_baseline.json")
+
+
+def load_baseline(tier):
+    """lemma names decided on the reference tree (committed): a refusal on one of them is a coverage regression and
+    makes the check inconclusive instead of quietly shrinking the claim"""
+    import json, os
+    if os.environ.get("VERIF_C08_NO_BASELINE") or not os.path.exists(BASELINE_FILE):
+        return set()
+    return set(json.load(open(BASELINE_FILE)).get(tier, []))
+
+
 def run(L, tier, only=None):
     from e2.lemmas.vm import OPCODES
+    base = load_baseline(tier)
     for op in OPCODES:
         if op != "Resolve" and (not only or op in only or "arms" in only):
             L.lemma("C08 VM arm " + op, arm_lemma(op))
     covered, not_covered = [], []
-    L.ex.path_budget = 1500 if tier == "quick" else 20000
-    L.lemma_time_budget = 12 if tier == "quick" else 240
+    # the refusal that bounds a quick lemma is the path budget (deterministic), not the clock
+    L.ex.path_budget = 1000 if tier == "quick" else 20000
+    L.lemma_time_budget = 120 if tier == "quick" else 240
+    times = {}
+
+    def one(name, w, fn):
+        import time as _t
+        n_und = len(L.undecided)
+        n_ob = len(L.obligations)
+        t0 = _t.time()
+        L.lemma(name, fn)
+        times[name] = round(_t.time() - t0, 1)
+        if len(L.obligations) == n_ob and len(L.undecided) == n_und:
+            return                      # not this worker's lemma / time box
+        if len(L.undecided) > n_und:
+            if name in base:
+                for k_ in range(n_und, len(L.undecided)):
+                    lem, why = L.undecided[k_]
+                    L.undecided[k_] = (lem, "COVERAGE REGRESSION (decided on the reference tree, refused now): " + why)
+                return
+            # refusals of lemmas that were never decided are "not covered", not failures of the check
+            for (lem, why) in L.undecided[n_und:]:
+                not_covered.append((name[4:], why.split("\n")[0][:200]))
+            del L.undecided[n_und:]
+        else:
+            covered.append(name[4:])
     for loader in LOADERS:
         try:
             wm = word_map(L.ex, loader)
@@ -97,21 +132,14 @@ def run(L, tier, only=None):
             if imm:
                 not_covered.append((w, "immediate (compile-time) word: needs the lexer/compiler state, see C01/C10/C11 lemmas"))
                 continue
-            n_und = len(L.undecided)
-            L.lemma("C08 " + w, word_lemma(w, target, imm))
+            one("C08 " + w, w, word_lemma(w, target, imm))
             if w in ("I", "J", "K"):
                 # inside loops: the cheap shapes (fewer visible loops than the word reaches over) every time,
                 # the ones that go on to fetch the item only in the thorough tier
                 for nl in ([1, 2] if tier != "quick" else {"I": [], "J": [1], "K": [1, 2]}[w]):
-                    L.lemma("C08 %s inside %d loop(s)" % (w, nl), word_lemma(w, target, imm, visible_loops=nl))
-            if len(L.undecided) > n_und:
-                # refusals are "not covered", not failures of the check
-                for (lem, why) in L.undecided[n_und:]:
-                    not_covered.append((w, why.split("\n")[0][:200]))
-                del L.undecided[n_und:]
-            else:
-                covered.append(w)
+                    one("C08 %s inside %d loop(s)" % (w, nl), w, word_lemma(w, target, imm, visible_loops=nl))
     L.c08_covered = covered
     L.c08_not_covered = not_covered
     L.ex.path_budget = None
-    L.samples.append({"engine": "e2", "words_covered": covered, "words_not_covered": [list(x) for x in not_covered][:200]})
+    L.samples.append({"engine": "e2", "words_covered": covered, "words_not_covered": [list(x) for x in not_covered][:200],
+                      "seconds": {k[4:]: v for k, v in times.items() if k[4:] in covered}})
